@@ -54,6 +54,7 @@ import GrcovModel.Lemmas.Escape
 import GrcovModel.Lemmas.EscapeAgree
 import GrcovModel.Props.C18CobBytes
 import GrcovModel.Props.C18JsonBytes
+import GrcovModel.Props.C18Html
 namespace Grcov.Props.C18
 open Grcov.Escape
 
